@@ -1,7 +1,7 @@
 (* C01 -- composition over plugin graphs: the stream at every node is a tight well-formed contiguous chunking of
    that node's whole-run rows, whatever chunkings the sources and the loaders of stored data types use. *)
 From SV Require Import Model.Rows Model.SplitArray Model.Chunk Model.Rechunker Model.Network
-     Proof.RowsFacts Proof.SplitArrayProof Proof.ChunkProof Proof.ConcatProof Proof.RechunkerProof Proof.NetworkProof Proof.NetworkDownProof.
+     Proof.RowsFacts Proof.SplitArrayProof Proof.ChunkProof Proof.ConcatProof Proof.RechunkerProof Proof.NetworkProof Proof.NetworkDownProof Proof.NetworkLoopProof.
 
 Lemma lookup_cons {A} d k (v : A) env : lookup d ((k, v) :: env) = if k =? d then Some v else lookup d env.
 Proof. reflexivity. Qed.
@@ -249,15 +249,18 @@ Proof.
     rewrite <- (map_length rt R1), <- (map_length rt R2), H. reflexivity.
 Qed.
 
-(* a small diamond: source 1, a row-wise node 2, a filter 3 on the same source, a same-kind merge 4 of (2, 1),
-   an exhaust node 5 on the merge; source chunked in three chunks (one empty, one of zero duration) *)
+(* a small graph: source 1, a row-wise node 2, a filter 3 on the same source, a same-kind merge 4 of (2, 1) (a
+   diamond), an exhaust node 5 on the merge, a down-chunking node 6 on the source, a loop node 7 over (6, 3);
+   the source comes in three chunks (one empty and of zero duration) *)
 Definition ex_meta (d : Z) : ometa := mkometa d d (Some 0) 4.
 Definition ex_graph : list node :=
   [ mknode 1 [] CSrc (ex_meta 1);
     mknode 2 [1] (CLocal (h_rowwise 3 1)) (ex_meta 2);
     mknode 3 [1] (CLocal (h_filter 1 0 2 0)) (ex_meta 3);
     mknode 4 [2; 1] (CPair true (h_merge2 1 5 2) []) (ex_meta 4);
-    mknode 5 [4] (CExhaust (f_exhaust 2 0 1)) (ex_meta 5) ].
+    mknode 5 [4] (CExhaust (f_exhaust 2 0 1)) (ex_meta 5);
+    mknode 6 [1] (CDown (h_rowwise 1 1) (down_cut 1)) (ex_meta 6);
+    mknode 7 [6; 3] (CPair false (h_loop 1 0) []) (ex_meta 7) ].
 Definition ex_rows : list row := [mkrow 1 4 100 5; mkrow 3 9 101 6; mkrow 9 9 102 7; mkrow 12 15 103 8].
 Definition ex_stream : stream :=
   [ mkchunk 0 9 [mkrow 1 4 100 5; mkrow 3 9 101 6] 1 1 (Some 0) 4;
@@ -272,7 +275,16 @@ Example ex_eval :
   | Err _ => None
   end = Some [(0, 20, [100; 101; 102; 103], [90; 107; 124; 141])]
   /\ option_map (map rch) (lookup 5 (eval_whole ex_src [] ex_graph)) = Some [90; 107; 124; 141]
-  /\ option_map (map rid) (lookup 3 (eval_whole ex_src [] ex_graph)) = Some [101; 103].
+  /\ option_map (map rid) (lookup 3 (eval_whole ex_src [] ex_graph)) = Some [101; 103]
+  /\ match eval_graph align_one ex_given [] ex_graph with
+     | Ok env => option_map (map (fun c => (cstart c, cend c, map rid (crows c)))) (lookup 6 env)
+     | Err _ => None
+     end = Some [(0, 9, [100; 101]); (9, 9, []); (9, 12, [102]); (12, 20, [103])]
+  /\ match eval_graph align_one ex_given [] ex_graph with
+     | Ok env => option_map (map (fun c => map rch (crows c))) (lookup 7 env)
+     | Err _ => None
+     end = Some [[6; 7; 8; 17]]
+  /\ option_map (map rch) (lookup 7 (eval_whole ex_src [] ex_graph)) = Some [6; 7; 8; 17].
 Proof. vm_compute. repeat split. Qed.
 
 Example ex_graph_ok : graph_ok (fun _ _ => True) 20 ex_src ex_given [] ex_graph.
@@ -290,6 +302,7 @@ Proof.
   repeat match goal with |- _ /\ _ => split end;
     try exact I; try discriminate; try reflexivity;
     try apply local_h_rowwise; try apply local_h_filter; try apply whole_f_exhaust; try apply pair_h_merge2;
+    try apply pair_h_loop; try apply down_cut_ok;
     try (eexists; reflexivity); try (eexists; eexists; reflexivity);
     try (repeat constructor; discriminate).
   cbn. exists 1, (Some 0). exact HS.
